@@ -63,6 +63,18 @@ added = {
  "C37-r4": "hand-built CMS signer infos with every prefix / extension / alteration of the message-digest attribute",
  "C40-r4": "requester kinds carrying an ISD-AS (SCION peers in local / foreign / twin ASes, other net.Addr types)",
  "C42-r4": "IPv4 flag x fragment-offset grid",
+ "C01-r5": "router-alert flags x payload kinds (UDP, traceroute, echo, SCMP error) on every defective hop; slow-path output decoded and judged",
+ "C05-r5": "previous hop field's two interfaces varied at the first hop after a segment change, presented over every sibling / internal link; self-check of valid packets non-fatal",
+ "C07-r5": "one-hop packets whose second hop field arrives non-empty (each field alone, fully populated, all ones)",
+ "C08-r5": "configuration histories (AddSvc/DelSvc, BFD up/down, port range; all sequences <= 3) before the packets",
+ "C12-r5": "ConsIngress in {0, unknown, real interface} x MACs with one input forced; outgoing walk completed by the real neighbour and reversed",
+ "C13-r5": "clock positions with sub-second resolution around both freshness bounds (+-1 ns, +-1 ms, +999 ms) and sender times off whole seconds",
+ "C17-r5": "starts from configuration text (6 TOML spellings, keys from the manual) through the real loader to the sockets, and the reverse (sample / dump)",
+ "C23-r5": "MaxExpTime obtained through real beacon stores with distinct per-policy maxima, extenders wired as in control/tasks.go",
+ "C24-r5": "chains fetched through the real grpc Fetcher from an in-process remote answering every ordered list of 1-3 chains",
+ "C31-r5": "exact expiry instants in integer nanoseconds (insert / get / clean-up at, 1 ns before and 1 ns after an expiration)",
+ "C35-r5": "load matrix: every TRC kind (base of unknown ISD, trust reset, regular, sensitive) x validity start past / now / future x loader",
+ "C41-r5": "185 generated length-field / version / truncation defects per frame size, sandwiched between valid packets",
  "C02-r5": "every simulated router recycles one packet object for all packets it processes (pool-style reset), so state left behind by one packet meets the next",
  "C14-r5": "sibling links sharing the internal socket (UDPCanReuseLocal false): receive loop demultiplexes by source address",
  "C48-r4": "rings pre-filled and pre-drained to every fill level / index position before the concurrent phase",
